@@ -1135,6 +1135,17 @@ func (ex *Exec) instr(in ssa.Instruction) {
 				}
 			}
 		}
+		if ia, ok := i.Addr.(*ssa.IndexAddr); ok {
+			// ... and to an element store:  assert label @before call storeelem[*]: expr
+			// (arg0 = the slice or array written into, arg1 = the index, arg2 = the value stored)
+			if _, isSl := ia.X.Type().Underlying().(*types.Slice); isSl {
+				base := ex.val(ia.X)
+				if base.P == nil && base.T != "" {
+					args := []TV{{T: base.T, Ty: ia.X.Type()}, {T: ex.to64(ia.Index), Ty: types.Typ[types.Int]}, {T: ex.val(i.Val).T, Ty: i.Val.Type()}}
+					ex.callSiteClauses("storeelem", -1, "before", args, nil, i.Pos(), i)
+				}
+			}
+		}
 		ex.store(i.Addr, ex.val(i.Val).T)
 		// preserving writers of a type invariant re-establish it right after each write
 		if fa, ok := i.Addr.(*ssa.FieldAddr); ok && ex.pass == 2 {
